@@ -20,8 +20,8 @@ S = {
  'C12-2': ('C12', 'detect_invalid_input uses is_ascii_control', 'a C1 control code point inside a comment or string', 'C12 / C14 (screening part): VIOLATION screen-wrong, replayed natively'),
  'C11-1': ('C11', 'AstResolver::validate_target promotes the composition export kind', 'a world export whose name matches a root type declaration', 'C11 (resolution-time check): VIOLATION validate-target-resolver (rule-level)'),
  'C11-2': ('C11', 'wac_types::validate_target checks exports in the inverted direction', 'an exported instance whose member set differs from the world interface', 'C11 (binary check): VIOLATION validate-target-binary, replayed natively'),
- 'C04-1': ('C04', 'inferred_instantiation_arg tries the last-segment match before the bound import/export name', 'local name differs from the bound name and a unique import ends in /<local>', None),
- 'C04-2': ('C04', 'spread_instantiation_arg overwrites already bound arguments', 'a spread instance exporting a name bound by an earlier argument', None),
+ 'C04-1': ('C04', 'inferred_instantiation_arg tries the last-segment match before the bound import/export name', 'local name differs from the bound name and a unique import ends in /<local>', 'C04 (inferred argument precedence): VIOLATION inferred-arg-precedence, two battery documents replayed through the real resolver'),
+ 'C04-2': ('C04', 'spread_instantiation_arg overwrites already bound arguments', 'a spread instance exporting a name bound by an earlier argument', 'C04 (spread rule): VIOLATION spread-rule, documents replayed through the real resolver'),
 }
 for k, (prop, what, needs, caught) in S.items():
     d = f'/verif/seeded/{k}'
